@@ -70,3 +70,36 @@ func vStubEncodeAlpha(alpha []byte, width, height int, cfg *AlphaEncoderConfig) 
 	out := append([]byte{0}, alpha...)
 	return out, nil
 }
+
+// ---- decode-side stubs (C16/C17 glue harnesses): accept any frame with a valid 10-byte key-frame
+// header and return zero planes of the declared size; the real header parse is C04/C05's subject.
+func vStubDecodeFrame(data []byte) (dec *Decoder, width, height int, y []byte, yStride int, u, v []byte, uvStride int, err error) {
+	if len(data) < 10 || data[0]&1 != 0 || data[3] != 0x9d || data[4] != 0x01 || data[5] != 0x2a {
+		err = ErrVerifStub
+		return
+	}
+	width = (int(data[6]) | int(data[7])<<8) & 0x3fff
+	height = (int(data[8]) | int(data[9])<<8) & 0x3fff
+	if width == 0 || height == 0 {
+		err = ErrVerifStub
+		return
+	}
+	yStride, uvStride = width, (width+1)/2
+	y = make([]byte, yStride*height)
+	u = make([]byte, uvStride*((height+1)/2))
+	v = make([]byte, uvStride*((height+1)/2))
+	return
+}
+
+var ErrVerifStub = errVerifStub{}
+
+type errVerifStub struct{}
+
+func (errVerifStub) Error() string { return "verif stub: invalid frame" }
+
+func vStubDecodeAlpha(data []byte, width, height int) ([]byte, error) {
+	if len(data) < 1 || width <= 0 || height <= 0 {
+		return nil, ErrVerifStub
+	}
+	return make([]byte, width*height), nil
+}
